@@ -172,3 +172,22 @@ def untraced(fn, *args):
     real = [realize(a) for a in args]
     with NoTracing():
         return fn(*real)
+
+
+def bits_index(*bits):
+    """Index from boolean structure parameters: CrossHair explores booleans as a balanced decision tree (one fork per bit),
+    whereas realising a wide int costs O(n) decisions per path."""
+    idx = 0
+    for i, b in enumerate(bits):
+        if b:
+            idx += 1 << i
+    return idx
+
+
+def decode_index(idx, radices):
+    """Mixed-radix decoding; None if idx is outside the product of the radices."""
+    out = []
+    for r in radices:
+        out.append(idx % r)
+        idx //= r
+    return None if idx else out
